@@ -28,7 +28,8 @@ void __wrap_free(void *p) { if (tracking && p) untrack(p); __libc_free(p); }
 
 static sigjmp_buf jb; static volatile int armed;
 static void on_segv(int s) { (void)s; if (!armed) _exit(3); armed = 0; siglongjmp(jb, 1); }
-static int h_n; static void handler(const char *m, void *p, int e) { (void)m; (void)p; (void)e; h_n++; }
+static int h_n, h_jump; static sigjmp_buf hjb;      /* h_jump: the handler leaves through longjmp (Annex K handlers need not return) */
+static void handler(const char *m, void *p, int e) { (void)m; (void)p; (void)e; h_n++; if (h_jump) { h_jump = 0; tracking = 0; siglongjmp(hjb, 1); } }
 
 #define BOSU ((size_t)-1)
 static int (*sprintf_p)(char *, size_t, size_t, const char *, ...);
@@ -59,6 +60,9 @@ static void c_sw_nospc(Res *res) { prep(); int r = swprintf_p(wd, 4, BOSU, L"%d"
 static void c_sw_nospc_big(Res *res) { prep(); int r = swprintf_p(wd, 600, BOSU, L"%0700d", 7); WRES(r); }
 static void c_snw_nospc_big(Res *res) { prep(); int r = snwprintf_p(wd, 600, BOSU, L"%0700d", 7); res->rc = r; res->failind = 1; res->has_dest = 0; res->dest_cleared = 1; }
 static void c_norm_long(Res *res) { prep(); size_t len = 0; int r = wcsnorm_p(wd, 400, longsrc, 1, &len, BOSU); res->rc = r; res->failind = r != 0; res->has_dest = 1; res->dest_cleared = wd[0] == 0; }
+static wchar_t tworuns[64];
+static void c_norm_tworuns_nfc(Res *res) { prep(); size_t len = 0; int r = wcsnorm_p(wd, 200, tworuns, 1, &len, BOSU); res->rc = r; res->failind = r != 0; res->has_dest = 1; res->dest_cleared = wd[0] == 0; }
+static void c_norm_tworuns_nfd(Res *res) { prep(); size_t len = 0; int r = wcsnorm_p(wd, 200, tworuns, 0, &len, BOSU); res->rc = r; res->failind = r != 0; res->has_dest = 1; res->dest_cleared = wd[0] == 0; }
 static void c_norm_marks(Res *res) { prep(); size_t len = 0; int r = wcsnorm_p(wd, 100, marks, 1, &len, BOSU); res->rc = r; res->failind = r != 0; res->has_dest = 1; res->dest_cleared = wd[0] == 0; }
 static void c_norm_marks2(Res *res) { prep(); size_t len = 0; int r = wcsnorm_p(wd, 100, marks2, 0, &len, BOSU); res->rc = r; res->failind = r != 0; res->has_dest = 1; res->dest_cleared = wd[0] == 0; }
 static void c_norm_marks_nolen(Res *res) { prep(); int r = wcsnorm_p(wd, 100, marks, 1, NULL, BOSU); res->rc = r; res->failind = r != 0; res->has_dest = 1; res->dest_cleared = wd[0] == 0; }
@@ -97,25 +101,31 @@ static struct { const char *name; void (*fn)(Res *); } cases[] = {
     { "wcsicmp", c_icmp }, { "wcsnatcmp_fold", c_natcmp }, { "fprintf_ls_Lf", c_fprintf_ls },
     { "vswprintf_nospc_big", c_vsw_nospc_big }, { "vsnwprintf_nospc_big", c_vsnw_nospc_big }, { "swprintf_badmb_big", c_sw_badmb_big }, { "swprintf_badmb_small", c_sw_badmb_small }, { "vswprintf_badmb_big", c_vsw_badmb_big },
     { "snwprintf_badmb_big", c_snw_badmb_big }, { "vsnwprintf_badmb_big", c_vsnw_badmb_big }, { "swprintf_ok_big", c_sw_ok_big }, { "vswprintf_ok_big", c_vsw_ok_big },
-    { "wcsnatcmp_fold_expanding", c_natcmp_exp }, { "wcsnatcmp_fold_expanding_src", c_natcmp_exp_src }, { "wcsicmp_expanding", c_icmp_exp },
+    { "wcsnorm_two_long_mark_runs_nfc", c_norm_tworuns_nfc }, { "wcsnorm_two_long_mark_runs_nfd", c_norm_tworuns_nfd }, { "wcsnatcmp_fold_expanding", c_natcmp_exp }, { "wcsnatcmp_fold_expanding_src", c_natcmp_exp_src }, { "wcsicmp_expanding", c_icmp_exp },
 };
 #define NC ((int)(sizeof cases / sizeof cases[0]))
 static int verbose; static long n_runs, n_viol;
 static long dry_count;
+static int g_jump;
 static void viol(const char *cs, const char *what, long k, long j, long count) {
     if (dry_count) count = dry_count;
     n_viol++;
-    printf("{\"t\":\"viol\",\"sig\":\"C20|%s|%s|%s\",\"case\":\"%s %ld %ld\"}\n", cs, what, k == 0 ? "no-failure" : j > 0 ? "two-failures" : k == count ? "last-allocation" : k == 1 ? "first-allocation" : "middle-allocation", cs, k, j);
+    printf("{\"t\":\"viol\",\"sig\":\"C20|%s|%s|%s\",\"case\":\"%s %ld %ld%s\"}\n", cs, what, k == 0 ? "no-failure" : j > 0 ? "two-failures" : k == count ? "last-allocation" : k == 1 ? "first-allocation" : "middle-allocation", cs, k, j, g_jump ? " jump" : "");
 }
 /* returns number of allocation requests */
 static long run_case(int ci, long k, long j) {
     Res res; memset(&res, 0, sizeof res);
     req_no = 0; fail_a = k > 0 ? k : -1; fail_b = j > 0 ? j : -1; live = 0; nblocks = 0; h_n = 0;
     int crashed = 0; n_runs++;
-    if (sigsetjmp(jb, 1) == 0) { armed = 1; tracking = 1; cases[ci].fn(&res); tracking = 0; armed = 0; } else { crashed = 1; tracking = 0; }
+    int jumped = 0;
+    if (sigsetjmp(jb, 1) == 0) { armed = 1;
+        if (g_jump) { if (sigsetjmp(hjb, 1) == 0) { h_jump = 1; tracking = 1; cases[ci].fn(&res); tracking = 0; h_jump = 0; } else { jumped = 1; tracking = 0; } }
+        else { tracking = 1; cases[ci].fn(&res); tracking = 0; }
+        armed = 0; } else { crashed = 1; tracking = 0; }
     long count = req_no; int injected = (k > 0 && k <= count) || (j > 0 && j <= count);
     if (verbose) printf("case %s fail@%ld,%ld: requests=%ld crashed=%d rc=%ld failure_indicated=%d dest_cleared=%d live_blocks=%ld handler=%d\n", cases[ci].name, k, j, count, crashed, res.rc, res.failind, res.dest_cleared, live, h_n);
     if (crashed) { viol(cases[ci].name, "crash", k, j, count); return count; }
+    if (jumped) { if (verbose) printf("  the handler left through longjmp; blocks still allocated by the library: %ld\n", live); if (live != 0) viol(cases[ci].name, "leak-when-the-handler-does-not-return", k, j, count); return count; }
     if (live != 0) viol(cases[ci].name, "leak", k, j, count);
     if (injected) {
         if (!res.failind) viol(cases[ci].name, "failure-not-indicated", k, j, count);
@@ -136,13 +146,14 @@ int main(int argc, char **argv) {
     for (int i = 0; i < 150; i++) longsrc[i] = 0x00e9;   /* 150 x e-acute: decomposes to 300 elements */
     longsrc[150] = 0;
     marks[0] = 'a'; for (int i = 1; i <= 24; i++) marks[i] = 0x0300 + (i % 5); marks[25] = 0;      /* > CC_SEQ_SIZE + CC_SEQ_STEP combining marks */
+    { int k = 0; tworuns[k++] = 'a'; for (int i = 0; i < 14; i++) tworuns[k++] = 0x0316 + (i % 3); tworuns[k++] = 'b'; for (int i = 0; i < 14; i++) tworuns[k++] = 0x0300 + (i % 5); tworuns[k++] = 'c'; for (int i = 0; i < 13; i++) tworuns[k++] = 0x0316 + (i % 2); tworuns[k] = 0; }      /* three separate runs, each longer than the on-stack sequence buffer */
     marks2[0] = 'e'; for (int i = 1; i <= 13; i++) marks2[i] = 0x0316 + (i % 3); marks2[14] = 0;
     static char alt[1 << 15]; stack_t sst = { .ss_sp = alt, .ss_size = sizeof alt }; sigaltstack(&sst, NULL);
     struct sigaction sa; memset(&sa, 0, sizeof sa); sa.sa_handler = on_segv; sa.sa_flags = SA_ONSTACK | SA_NODEFER; sigaction(SIGSEGV, &sa, NULL); sigaction(SIGABRT, &sa, NULL);
     if (argc >= 4 && !strcmp(argv[1], "replay")) {
         verbose = 1; int ci = -1; for (int i = 0; i < NC; i++) if (!strcmp(cases[i].name, argv[2])) ci = i;
         if (ci < 0) return 2;
-        long before = n_viol; run_case(ci, atol(argv[3]), argc > 4 ? atol(argv[4]) : 0);
+        long before = n_viol; g_jump = argc > 5 && !strcmp(argv[5], "jump"); run_case(ci, atol(argv[3]), argc > 4 ? atol(argv[4]) : 0);
         printf(n_viol > before ? "VERDICT violation\n" : "VERDICT ok\n"); return n_viol > before;
     }
     int pairs = argc > 1 ? atoi(argv[1]) : 0; long sites = 0;
@@ -151,6 +162,7 @@ int main(int argc, char **argv) {
         dry_count = count;
         printf("{\"t\":\"case\",\"name\":\"%s\",\"allocations\":%ld}\n", cases[ci].name, count);
         sites += count;
+        g_jump = 1; run_case(ci, 0, 0); for (long k = 1; k <= count; k++) run_case(ci, k, 0); g_jump = 0;      /* the same failure positions with a handler that does not return */
         for (long k = 1; k <= count; k++) {
             run_case(ci, k, 0);
             if (pairs) for (long j = k + 1; j <= count + 1; j++) run_case(ci, k, j);
